@@ -1,36 +1,29 @@
 package c22
 
 import (
-	"strings"
 	"testing"
 
 	"verifh/evid"
 	"verifh/mc"
 	"verifh/sigh"
-	"verifh/vsync"
 )
 
-type scen struct {
-	name    string
-	scripts [][]string
-}
-
-func scenarios(quick bool) []scen {
-	s := []scen{
+func scenarios(quick bool) []sigh.Scen {
+	s := []sigh.Scen{
 		{"both-attach", [][]string{{"attach:a1:A:B"}, {"attach:b1:B:A"}}},
 		{"b-reattach", [][]string{{"attach:a1:A:B"}, {"attach:b1:B:A", "cancel:b1", "attach:b2:B:A"}}},
 		{"b-usurp", [][]string{{"attach:a1:A:B"}, {"attach:b1:B:A", "attach:b2:B:A"}}},
 		{"b-detach", [][]string{{"attach:a1:A:B"}, {"attach:b1:B:A", "cancel:b1"}}},
-		{"a-sends-b-reattach", [][]string{{"attach:a1:A:B", "send:a1:m1"}, {"attach:b1:B:A", "cancel:b1", "attach:b2:B:A"}}},
-		{"a-sends-b-acks-reattach", [][]string{{"attach:a1:A:B", "send:a1:m1"}, {"attach:b1:B:A", "ack:b1:last", "cancel:b1", "attach:b2:B:A"}}},
+		{"a-sends-b-reattach", [][]string{{"attach:a1:A:B", "wait", "send:a1:m1"}, {"attach:b1:B:A", "cancel:b1", "attach:b2:B:A"}}},
+		{"a-sends-b-acks-reattach", [][]string{{"attach:a1:A:B", "wait", "send:a1:m1"}, {"attach:b1:B:A", "wait", "ack:b1:last", "cancel:b1", "attach:b2:B:A"}}},
 		{"stale-send", [][]string{{"attach:a1:A:B", "sende:a1:m1:2", "sende:a1:m2:1"}, {"attach:b1:B:A"}}},
 	}
 	if !quick {
 		s = append(s,
-			scen{"both-reattach", [][]string{{"attach:a1:A:B", "cancel:a1", "attach:a2:A:B"}, {"attach:b1:B:A", "cancel:b1", "attach:b2:B:A"}}},
-			scen{"b-reattach-twice", [][]string{{"attach:a1:A:B", "send:a1:m1"}, {"attach:b1:B:A", "cancel:b1", "attach:b2:B:A", "cancel:b2", "attach:b3:B:A"}}},
-			scen{"send-both-ways-reattach", [][]string{{"attach:a1:A:B", "send:a1:m1", "ack:a1:last"}, {"attach:b1:B:A", "send:b1:n1", "cancel:b1", "attach:b2:B:A", "clear:b2:1"}}},
-			scen{"three-threads", [][]string{{"attach:a1:A:B", "send:a1:m1"}, {"attach:b1:B:A", "cancel:b1"}, {"attach:b2:B:A"}}},
+			sigh.Scen{"both-reattach", [][]string{{"attach:a1:A:B", "cancel:a1", "attach:a2:A:B"}, {"attach:b1:B:A", "cancel:b1", "attach:b2:B:A"}}},
+			sigh.Scen{"b-reattach-twice", [][]string{{"attach:a1:A:B", "wait", "send:a1:m1"}, {"attach:b1:B:A", "cancel:b1", "attach:b2:B:A", "cancel:b2", "attach:b3:B:A"}}},
+			sigh.Scen{"send-both-ways-reattach", [][]string{{"attach:a1:A:B", "wait", "send:a1:m1", "ack:a1:last"}, {"attach:b1:B:A", "wait", "send:b1:n1", "cancel:b1", "attach:b2:B:A", "clear:b2:1"}}},
+			sigh.Scen{"three-threads", [][]string{{"attach:a1:A:B", "wait", "send:a1:m1"}, {"attach:b1:B:A", "cancel:b1"}, {"attach:b2:B:A"}}},
 		)
 	}
 	return s
@@ -43,44 +36,13 @@ func TestC22(t *testing.T) {
 	if !run.Quick() {
 		bound = 2
 	}
-	mc.RunScenarios(t, agg, len(scenarios(run.Quick())), func(i int) *vsync.Config {
-		sc := scenarios(run.Quick())[i]
-		return &vsync.Config{
-			Name: "relay-s1/" + sc.name, Bound: bound, Deadline: run.Deadline(), MaxStep: 4000,
-			Body: func() {
-				w := sigh.NewWorld()
-				w.RunScripts(sc.scripts)
-				w.EvalQuiescent()
-				w.Teardown()
-			},
-			Check: func(x *vsync.Exec) string {
-				if x.Deadlock {
-					return "V22:deadlock"
-				}
-				if x.HorizonHit {
-					return ""
-				}
-				if v := sigh.Verdicts(x.Log, "V22:"); len(v) > 0 {
-					return strings.Join(v, " ; ")
-				}
-				return ""
-			},
-		}
-	}, func(v *vsync.Violation) string {
-		seen := map[string]bool{}
-		var ks []string
-		for _, p := range strings.Split(v.What, " ; ") {
-			if c := sigh.Class(p); !seen[c] {
-				seen[c] = true
-				ks = append(ks, c)
-			}
-		}
-		return strings.Join(ks, " ; ")
-	})
+	sigh.ExploreS1(t, run, agg, "V22:", scenarios(run.Quick()), bound)
 	agg.Finish(true)
+	agg.RequireTag("saw RecvMsg")
+	agg.RequireTag("saw Closed")
 	run.Cov["preemption_bound"] = bound
 	run.Assumptions = append(run.Assumptions,
-		"clients are harness script threads speaking the raw Session stream; streams are unbounded in-memory FIFOs (instrumented)",
+		"clients are harness script threads speaking the raw Session stream; streams are in-memory FIFOs (instrumented)",
 		"oracle evaluated on the wire history and on the server's private state at quiescence; 'announced before dropped' is read as 'announced by quiescence' (the relay's drop and announce paths are asynchronous by design)")
 	run.Finish(t)
 }
